@@ -64,12 +64,12 @@ def repeatL : Nat → List Tk → List Tk
 /-- all passes through the loop section: from any state standing on the loop point with `k` jumps
 left, the interpreter plays `b` `k + 1` times with a loop mark after each of the first `k`, and
 stops at the jump -/
-theorem jump_passes {seq : List Nat} {base mj : Nat} {eS eB : Enc} {T : List Tk}
+theorem jump_passes {seq : List Nat} {base mj : Nat} {eS eB : Enc} {T : List Tk} {hi lo : Nat}
     (hsem : ∀ (s : St) (O : List Tk), Good eS s O →
       ∃ s1, Reach seq base mj s s1 ∧ Frame s s1 ∧ Good eB s1 (T.reverse ++ O))
     (hS : ∀ s : St, s.pc = eS.out.length → s.drum = false → Good eS s s.out)
-    (hp : eB.out ++ [mds_JUMP, jumpOff eB / 256, jumpOff eB % 256] <+: seq)
-    (htgt : (eB.out.length + 3 + (jumpOff eB / 256 * 256 + jumpOff eB % 256)) % 65536 = eS.out.length) :
+    (hp : eB.out ++ [mds_JUMP, hi, lo] <+: seq)
+    (htgt : (eB.out.length + 3 + (hi * 256 + lo)) % 65536 = eS.out.length) :
     ∀ (k : Nat) (s : St) (O : List Tk), Good eS s O → mj - s.jumps = k → s.jumps ≤ mj →
       ∃ s', Reach seq base mj s s' ∧ step seq base mj s' = .error .finished ∧
         s'.out = (repeatL k (T ++ [Tk.loopMark]) ++ T).reverse ++ O := by
@@ -80,8 +80,8 @@ theorem jump_passes {seq : List Nat} {base mj : Nat} {eS eB : Enc} {T : List Tk}
     obtain ⟨s1, r1, f1, g1⟩ := hsem s O g
     obtain ⟨s2, r2, f2, i2⟩ := resolve (base := base) (mj := mj) g1 (b := mds_JUMP) (by decide) hp
     have r0 : seq[s2.pc]? = some mds_JUMP := by rw [i2.pc]; exact rd_at hp
-    have r1' : seq[s2.pc + 1]? = some (jumpOff eB / 256) := by rw [i2.pc]; exact rd_at1 hp
-    have r2' : seq[s2.pc + 1 + 1]? = some (jumpOff eB % 256) := by rw [i2.pc]; exact rd_at2 hp
+    have r1' : seq[s2.pc + 1]? = some hi := by rw [i2.pc]; exact rd_at1 hp
+    have r2' : seq[s2.pc + 1 + 1]? = some lo := by rw [i2.pc]; exact rd_at2 hp
     have hs := step_jump (base := base) (mj := mj) r0 r1' r2'
     have hj : s2.jumps ≥ mj := by rw [f2.jumps, f1.jumps]; omega
     rw [if_pos hj] at hs
@@ -91,13 +91,13 @@ theorem jump_passes {seq : List Nat} {base mj : Nat} {eS eB : Enc} {T : List Tk}
     obtain ⟨s1, r1, f1, g1⟩ := hsem s O g
     obtain ⟨s2, r2, f2, i2⟩ := resolve (base := base) (mj := mj) g1 (b := mds_JUMP) (by decide) hp
     have r0 : seq[s2.pc]? = some mds_JUMP := by rw [i2.pc]; exact rd_at hp
-    have r1' : seq[s2.pc + 1]? = some (jumpOff eB / 256) := by rw [i2.pc]; exact rd_at1 hp
-    have r2' : seq[s2.pc + 1 + 1]? = some (jumpOff eB % 256) := by rw [i2.pc]; exact rd_at2 hp
+    have r1' : seq[s2.pc + 1]? = some hi := by rw [i2.pc]; exact rd_at1 hp
+    have r2' : seq[s2.pc + 1 + 1]? = some lo := by rw [i2.pc]; exact rd_at2 hp
     have hs := step_jump (base := base) (mj := mj) r0 r1' r2'
     have hj : ¬ s2.jumps ≥ mj := by rw [f2.jumps, f1.jumps]; omega
     rw [if_neg hj] at hs
     obtain ⟨s3, hs3, hpc3', hd3', hj3', ho3'⟩ : ∃ s3 : St, step seq base mj s2 = .ok s3 ∧
-        s3.pc = (s2.pc + 3 + (jumpOff eB / 256 * 256 + jumpOff eB % 256)) % 65536 ∧ s3.drum = s2.drum ∧
+        s3.pc = (s2.pc + 3 + (hi * 256 + lo)) % 65536 ∧ s3.drum = s2.drum ∧
         s3.jumps = s2.jumps + 1 ∧ s3.out = Tk.loopMark :: s2.out := ⟨_, hs, rfl, rfl, rfl, rfl⟩
     have hpc3 : s3.pc = eS.out.length := by rw [hpc3', i2.pc]; exact htgt
     have hd3 : s3.drum = false := by rw [hd3']; exact i2.drum
